@@ -311,7 +311,7 @@ func c09LLDP(c *ev.Collector, rt *rapid.T, l gen.LLDPMsg) {
 		Write([]byte) (int, error)
 	}
 	cyc := func(name string, v rw, fresh rw, dump func(rw) string) bool {
-		buf := make([]byte, 600)
+		buf := make([]byte, 64+len(l.Val.Chassis.Data)+len(l.Val.Port.Data))
 		var n int
 		var err error
 		if pf, pm := safeCall(func() { n, err = v.Read(buf) }); pf != "" || err != nil {
